@@ -397,7 +397,8 @@ def is_pds_group(items):
         if isinstance(v, (pvl.PVLGroup, pvl.PVLObject)):
             return False
         if k.startswith("^"):
-            if type(v) is int or (isinstance(v, pvl.Quantity) and type(v.value) is int):
+            # "integer" as the encoder documents and tests it: isinstance(v, int), so Python's True/False count too
+            if isinstance(v, int) or (isinstance(v, pvl.Quantity) and isinstance(v.value, int)):
                 return False
         names.append(k)
     return len(names) == len(set(names))
@@ -695,32 +696,41 @@ def wrap_symptom(d, folding):
     if not reader_folds:
         # white space inserted after a '-' that had none
         if "-" in o and norm(re.sub(r"-\s+", "-", o)) == norm(re.sub(r"-\s+", "-", l)):
-            if len(re.findall(r"-\s", l)) > len(re.findall(r"-\s", o)):
+            if len(re.findall(r"\w-\s+\w", l)) > len(re.findall(r"\w-\s+\w", o)):
                 return hyph
             return f"line-wrap-after-dash-inside-{where}"
         return None
     fl = norm(l)
     if fl == fold(o) or "-" not in o:
         return None
-    spots = [(m.start(), m.end(), "space") for m in re.finditer(r"-[ \t\n\r\v\f]+", o)]
-    spots += [(m.start(), m.end(), "word") for m in re.finditer(r"-(?=[^ \t\n\r\v\f])", o)]
-    spots.sort()
-    if not spots:
+    space_spots = [(m.start(), m.end(), "space") for m in re.finditer(r"-[ \t\n\r\v\f]+", o)]
+    # a hyphen INSIDE a word (word character on both sides), the only place break_on_hyphens would split
+    word_spots = [(m.start(), m.end(), "word") for m in re.finditer(r"(?<=\w)-(?=\w)", o)]
+
+    def explained(spots):
+        if not spots:
+            return None
+        if len(spots) <= 12:
+            combos = range(1, 2 ** len(spots))
+        else:            # many dashes: one or two removed spots
+            n = len(spots)
+            combos = [1 << i for i in range(n)] + [(1 << i) | (1 << j) for i in range(n) for j in range(i + 1, n)]
+        for mask in combos:
+            t, shift, kinds = o, 0, set()
+            for i, (a, b, kind) in enumerate(spots):
+                if mask >> i & 1:
+                    t = t[:a - shift] + t[b - shift:]
+                    shift += b - a
+                    kinds.add(kind)
+            if fold(t) == fl:
+                return kinds
         return None
-    if len(spots) <= 12:
-        combos = range(1, 2 ** len(spots))
-    else:            # many dashes: one or two removed spots
-        n = len(spots)
-        combos = [1 << i for i in range(n)] + [(1 << i) | (1 << j) for i in range(n) for j in range(i + 1, n)]
-    for mask in combos:
-        t, shift, kinds = o, 0, set()
-        for i, (a, b, kind) in enumerate(spots):
-            if mask >> i & 1:
-                t = t[:a - shift] + t[b - shift:]
-                shift += b - a
-                kinds.add(kind)
-        if fold(t) == fl:
-            return hyph if "word" in kinds else f"line-wrap-after-dash-inside-{where}"
+    # prefer the explanation that needs no split inside a word
+    if explained(space_spots) is not None:
+        return f"line-wrap-after-dash-inside-{where}"
+    kinds = explained(sorted(space_spots + word_spots))
+    if kinds is not None:
+        return hyph if "word" in kinds else f"line-wrap-after-dash-inside-{where}"
     return None
 
 
@@ -1214,6 +1224,15 @@ def classify_module(items):
     if len(items) > 1:
         ks = [k for k, _ in items]
         tag = "dup-keys" if len(set(ks)) < len(ks) else "multi"
+        if len(items) == 2 and tag == "multi":
+            # one scalar next to an innocuous aggregation (canonical name, empty or filler content): the scalar is the
+            # interesting part, name the class after it
+            sc = [(i, k, v) for i, (k, v) in enumerate(items) if v[0] not in ("group", "object")]
+            ag = [(i, k, v) for i, (k, v) in enumerate(items) if v[0] in ("group", "object")]
+            if (len(sc) == 1 and len(ag) == 1 and ag[0][1] in ("a", "g", "o", "x") and sc[0][1] in ("a", "g", "o", "x")
+                    and all(iv == ["int", 1] and ik in ("a", "g", "o", "x") for ik, iv in ag[0][2][1])):
+                kk, cc = classify_value(sc[0][2])
+                return kk, f"{cc}+{'following' if sc[0][0] < ag[0][0] else 'preceding'}-{ag[0][2][0]}"
         kinds = "+".join(sorted({v[0] for _, v in items}))
         return "module", f"{tag}-{kinds}"
     k, vd = items[0]
